@@ -158,6 +158,8 @@ type dnaParams struct {
 	Kappa2 float64    `json:"kappa2,omitempty"` // TN93: pyrimidine transitions C<->T
 	Rates  [6]float64 `json:"rates"`            // GTR: AC AG AT CG CT GT (the d f b e a c of the comment in gtr.go)
 	Pi     [4]float64 `json:"pi"`
+	// K2P with kappa 1: the object is used as constructed (documented default 1.0), InitModel is not called
+	AsConstructed bool `json:"as_constructed,omitempty"`
 }
 
 // dnaQ is the textbook normalised rate matrix of a nucleotide model.
